@@ -29,17 +29,16 @@ Proof.
 Qed.
 
 Theorem os_handlers pre s : oreach pre s ->
-  NoDup (busy (hs s)) /\
+  NoDup (filter is_reg (busy (hs s))) /\
   map h_sig (nondef (stack (core s))) = running (hs s) /\
   (forall x, In x (running (hs s)) -> In x (busy (hs s))) /\
-  (forall x, In x (map s_sig (hs s)) -> is_reg x = true /\ pre x = false).
+  (forall x, In x (map s_sig (hs s)) -> x = alarm_sig \/ (is_reg x = true /\ pre x = false)).
 Proof.
   intro Hr. destruct (oreach_inv _ _ Hr) as [_ Hl Hh _ _]. repeat split.
   - eapply hs_ok_nodup; eassumption.
   - exact Hl.
   - intro x. apply running_busy.
-  - eapply hs_ok_in; eassumption.
-  - eapply hs_ok_in; eassumption.
+  - intros x Hx. eapply hs_ok_in; eassumption.
 Qed.
 
 Theorem os_quiescent pre s x : oreach pre s -> is_reg x = true -> pre x = false -> hs s = [] -> dsp s x = DHandler.
@@ -50,43 +49,56 @@ Qed.
 (* ------------------------------------------------------------------------------------------- *)
 (* what the OS does with an arrival                                                             *)
 (* ------------------------------------------------------------------------------------------- *)
-Lemma ostep_enter s x r : hs s = mkS x PEnter :: r ->
-  ostep 0 s = mkO (arrive x (core s)) (upd (dsp s) x DIgnore) (mkS x PRun :: r) (acc s) (drp s).
-Proof. intro H. unfold ostep. simpl. rewrite H. reflexivity. Qed.
+Lemma ostep_enter s x r : hs s = mkS x PEnter :: r -> inst (reg s) = Some O ->
+  ostep 0 s = mkO (arrive x (core s)) (upd (dsp s) x DIgnore) (mkS x PRun :: r) (acc s) (drp s) (reg s).
+Proof. intros H Hi. unfold ostep. simpl. rewrite H. simpl. rewrite Hi. reflexivity. Qed.
 
 Lemma ostep_run_keep s x r : hs s = mkS x PRun :: r ->
   length (stack (step true 0 (core s))) = length (stack (core s)) ->
-  ostep 0 s = mkO (step true 0 (core s)) (dsp s) (hs s) (acc s) (drp s).
+  ostep 0 s = mkO (step true 0 (core s)) (cb_dsp (core s) (reg s) (dsp s)) (hs s) (acc s) (drp s) (cb_reg (core s) (reg s)).
 Proof. intros H Hl. unfold ostep. simpl. rewrite H. simpl. rewrite Hl, Nat.ltb_irrefl. reflexivity. Qed.
 
 Theorem os_arrival pre s d : oreach pre s -> is_reg d = true -> pre d = false ->
-  (In d (busy (hs s)) -> ostep d s = mkO (core s) (dsp s) (hs s) (acc s) (drp s ++ [d])) /\
+  (In d (busy (hs s)) -> ostep d s = mkO (core s) (dsp s) (hs s) (acc s) (drp s ++ [d]) (reg s)) /\
   (~ In d (busy (hs s)) ->
-     ostep d s = mkO (core s) (dsp s) (mkS d PEnter :: hs s) (acc s ++ [d]) (drp s) /\
+     ostep d s = mkO (core s) (dsp s) (mkS d PEnter :: hs s) (acc s ++ [d]) (drp s) (reg s) /\
      let s2 := ostep 0 (ostep d s) in
      core s2 = arrive d (core s) /\ hs s2 = mkS d PRun :: hs s /\ dsp s2 d = DIgnore /\ drp s2 = drp s).
 Proof.
   intros Hr Hreg Hp. pose proof (is_reg_nz _ Hreg) as Hnz.
+  pose proof (o_inst _ _ (oreach_inv _ _ Hr)) as Hin.
+  assert (Hsig : is_sig d = true) by (unfold is_sig; rewrite Hreg; reflexivity).
   destruct (os_dispositions pre s d Hr Hreg) as [Hi [Hh _]].
   split; intro Hb.
-  - unfold ostep. destruct (Z.eqb_spec d 0); [contradiction|]. rewrite Hreg.
+  - unfold ostep. destruct (Z.eqb_spec d 0); [contradiction|]. rewrite Hsig.
     rewrite (proj2 Hi (or_intror Hb)). reflexivity.
-  - assert (E : ostep d s = mkO (core s) (dsp s) (mkS d PEnter :: hs s) (acc s ++ [d]) (drp s)).
-    { unfold ostep. destruct (Z.eqb_spec d 0); [contradiction|]. rewrite Hreg.
+  - assert (E : ostep d s = mkO (core s) (dsp s) (mkS d PEnter :: hs s) (acc s ++ [d]) (drp s) (reg s)).
+    { unfold ostep. destruct (Z.eqb_spec d 0); [contradiction|]. rewrite Hsig.
       rewrite (proj2 Hh (conj Hp Hb)). reflexivity. }
-    split; [exact E|]. rewrite E. cbv zeta. rewrite (ostep_enter _ d (hs s)) by reflexivity. simpl.
+    split; [exact E|]. rewrite E. cbv zeta. rewrite (ostep_enter _ d (hs s)) by (try reflexivity; exact Hin). simpl.
     repeat split; auto. unfold upd. rewrite Z.eqb_refl. reflexivity.
 Qed.
 
 Theorem os_dropped_only_if pre s d : oreach pre s -> drp (ostep d s) <> drp s ->
-  d <> 0 /\ is_reg d = true /\ (pre d = true \/ In d (busy (hs s))) /\
-  ostep d s = mkO (core s) (dsp s) (hs s) (acc s) (drp s ++ [d]).
+  d <> 0 /\
+  ((is_reg d = true /\ (pre d = true \/ In d (busy (hs s)))) \/
+   (d = alarm_sig /\ ((alarm_set (reg s) = false /\ pre alarm_sig = true) \/ In alarm_sig (busy (hs s))))) /\
+  ostep d s = mkO (core s) (dsp s) (hs s) (acc s) (drp s ++ [d]) (reg s).
 Proof.
   intros Hr Hne. unfold ostep in *. destruct (Z.eqb_spec d 0) as [Hd|Hd].
-  - exfalso. apply Hne. destruct (hs s) as [|e r]; [reflexivity|]. destruct (s_ph e); reflexivity.
-  - destruct (is_reg d) eqn:Hreg; [|contradiction].
+  - exfalso. apply Hne. destruct (hs s) as [|e r].
+    + destruct (at_op (core s)); [destruct (objstep (reg s))|]; reflexivity.
+    + destruct (s_ph e); try reflexivity. destruct (inst (reg s)) as [[|?]|]; reflexivity.
+  - destruct (is_sig d) eqn:Hsig; [|contradiction].
     destruct (dsp s d) eqn:Hds; try contradiction.
-    repeat split; auto. apply (os_dispositions pre s d Hr Hreg). exact Hds.
+    repeat split; auto. destruct (is_sig_cases _ Hsig) as [H4|Hreg].
+    + right. split; [exact H4|]. subst d. destruct (oreach_inv _ _ Hr) as [_ _ _ _ _ _ _ _ Hal Hna].
+      destruct (alarm_set (reg s)) eqn:Has.
+      * right. destruct (in_dec Z.eq_dec alarm_sig (busy (hs s))) as [Hi|Hi]; [exact Hi|].
+        rewrite (Hal eq_refl Hi) in Hds. discriminate.
+      * left. split; [reflexivity|]. destruct (Hna eq_refl) as [H1 _]. rewrite H1 in Hds. unfold boot in Hds.
+        destruct (pre alarm_sig); [reflexivity|discriminate].
+    + left. split; [exact Hreg|]. apply (os_dispositions pre s d Hr Hreg). exact Hds.
 Qed.
 
 (* ------------------------------------------------------------------------------------------- *)
@@ -115,34 +127,41 @@ Qed.
 
 (* an arrival whose handler is installed and that finds blocked_ = 0 is in the callback after the three steps of its
    own activation (signal(SIG_IGN) + call, fetch_and_inc, callback entry) *)
-Theorem os_immediate s d : d <> 0 -> is_reg d = true -> dsp s d = DHandler -> blocked (core s) = 0 ->
+Theorem os_immediate s d : d <> 0 -> is_sig d = true -> dsp s d = DHandler -> inst (reg s) = Some O -> blocked (core s) = 0 ->
   let s4 := oexec [d; 0; 0; 0] s in
   fates (core s4) = (length (arrs (core s)), FDelivered d) :: fates (core s) /\
   arrs (core s4) = arrs (core s) ++ [d] /\
   stack (core s4) = mkH d (length (arrs (core s))) false HCbExit 0 :: stack (core s) /\
   blocked (core s4) = 1 /\
-  hs s4 = mkS d PRun :: hs s /\ dsp s4 d = DIgnore /\ drp s4 = drp s /\ acc s4 = acc s ++ [d].
+  hs s4 = mkS d PRun :: hs s /\
+  dsp s4 d = (if (d =? alarm_sig) && hd false (rearm (reg s)) then DHandler else DIgnore) /\
+  drp s4 = drp s /\ acc s4 = acc s ++ [d].
 Proof.
-  intros Hnz Hreg Hd Hb. cbv zeta. unfold oexec. cbn [fold_left].
-  assert (E1 : ostep d s = mkO (core s) (dsp s) (mkS d PEnter :: hs s) (acc s ++ [d]) (drp s)).
+  intros Hnz Hreg Hd Hin Hb. cbv zeta. unfold oexec. cbn [fold_left].
+  assert (E1 : ostep d s = mkO (core s) (dsp s) (mkS d PEnter :: hs s) (acc s ++ [d]) (drp s) (reg s)).
   { unfold ostep. destruct (Z.eqb_spec d 0); [contradiction|]. rewrite Hreg, Hd. reflexivity. }
   rewrite E1. clear E1.
   set (c := core s) in *.
-  set (s1 := mkO c (dsp s) (mkS d PEnter :: hs s) (acc s ++ [d]) (drp s)).
-  set (s2 := mkO (arrive d c) (upd (dsp s) d DIgnore) (mkS d PRun :: hs s) (acc s ++ [d]) (drp s)).
-  assert (E2 : ostep 0 s1 = s2) by reflexivity.
+  set (s1 := mkO c (dsp s) (mkS d PEnter :: hs s) (acc s ++ [d]) (drp s) (reg s)).
+  set (s2 := mkO (arrive d c) (upd (dsp s) d DIgnore) (mkS d PRun :: hs s) (acc s ++ [d]) (drp s) (reg s)).
+  assert (E2 : ostep 0 s1 = s2) by (apply (ostep_enter s1 d (hs s)); [reflexivity|exact Hin]).
   rewrite E2. clear E2.
   set (c3 := mk (0 + 1) (pending c) (pend_id c) (mpc_ c) (ops c)
                 (mkH d (length (arrs c)) false HCbEnter 0 :: stack c) (answers c) (arrs c ++ [d]) (depth c) (stops c) (fates c)).
   assert (E3 : step true 0 (arrive d c) = c3).
   { unfold step, arrive, hstep. simpl. rewrite Hb. reflexivity. }
-  set (s3 := mkO c3 (upd (dsp s) d DIgnore) (mkS d PRun :: hs s) (acc s ++ [d]) (drp s)).
+  set (r3 := cb_reg (arrive d c) (reg s)).
+  set (s3 := mkO c3 (upd (dsp s) d DIgnore) (mkS d PRun :: hs s) (acc s ++ [d]) (drp s) r3).
   assert (E4 : ostep 0 s2 = s3).
   { rewrite (ostep_run_keep s2 d (hs s)); [|reflexivity|cbn [core s2]; rewrite E3; reflexivity].
-    cbn [core s2]. rewrite E3. reflexivity. }
+    cbn [core s2 dsp reg]. rewrite E3. reflexivity. }
   rewrite E4. clear E4.
   rewrite (ostep_run_keep s3 d (hs s)); [|reflexivity|reflexivity].
-  cbn. repeat split; auto. unfold upd. rewrite Z.eqb_refl. reflexivity.
+  cbn [core dsp hs acc drp s3]. cbn. repeat split; auto.
+  unfold cb_dsp, rearm_now, r3, cb_reg. cbn. unfold upd.
+  destruct (hd false (rearm (reg s))); cbn.
+  - destruct (Z.eqb_spec d alarm_sig) as [->|Hne]; cbn; [reflexivity|]. rewrite Z.eqb_refl. reflexivity.
+  - rewrite andb_false_r. rewrite Z.eqb_refl. reflexivity.
 Qed.
 
 (* "later signals are still handled": whenever no handler for d is in progress (and the environment did not have d ignored),
@@ -154,7 +173,8 @@ Theorem os_later_signal_handled pre s d :
 Proof.
   intros Hr Hreg Hp Hb Hbl. cbv zeta.
   assert (Hd : dsp s d = DHandler) by (apply (os_dispositions pre s d Hr Hreg); auto).
-  destruct (os_immediate s d (is_reg_nz _ Hreg) Hreg Hd Hbl) as [H1 [_ [_ [_ [_ [_ [H2 H3]]]]]]].
+  assert (Hsig : is_sig d = true) by (unfold is_sig; rewrite Hreg; reflexivity).
+  destruct (os_immediate s d (is_reg_nz _ Hreg) Hsig Hd (o_inst _ _ (oreach_inv _ _ Hr)) Hbl) as [H1 [_ [_ [_ [_ [_ [H2 H3]]]]]]].
   repeat split; auto.
   - rewrite H1. left. reflexivity.
   - apply oreach_oexec. exact Hr.
@@ -165,12 +185,15 @@ Theorem os_below_stable d s e r : hs s = e :: r -> exists top, hs (ostep d s) = 
 Proof.
   intro H. unfold ostep. destruct (d =? 0).
   - rewrite H. destruct (s_ph e); cbn [hs].
-    + exists [mkS (s_sig e) PRun]. split; [reflexivity|simpl; lia].
+    + destruct (inst (reg s)) as [[|?]|]; cbn [hs].
+      * exists [mkS (s_sig e) PRun]. split; [reflexivity|simpl; lia].
+      * exists []. split; [reflexivity|simpl; lia].
+      * exists []. split; [reflexivity|simpl; lia].
     + destruct (length (stack (step true 0 (core s))) <? length (stack (core s)))%nat.
       * exists [mkS (s_sig e) PExit]. split; [reflexivity|simpl; lia].
       * exists [e]. split; [reflexivity|simpl; lia].
     + exists []. split; [reflexivity|simpl; lia].
-  - destruct (is_reg d); [|exists [e]; split; [exact H|simpl; lia]].
+  - destruct (is_sig d); [|exists [e]; split; [exact H|simpl; lia]].
     destruct (dsp s d); cbn [hs]; rewrite ?H.
     + exists [e]. split; [reflexivity|simpl; lia].
     + exists [mkS d PEnter; e]. split; [reflexivity|simpl; lia].
@@ -187,8 +210,13 @@ Qed.
 
 Theorem orun_reach pre n : forall ds s, oreach pre s -> oreach pre (snd (orun n ds s)).
 Proof.
-  induction n as [|n IH]; intros ds s Hr; simpl; [exact Hr|].
-  destruct ((match ds with [] => 0 | d :: _ => d end =? 0) && (code (core s) =? 0)); [exact Hr|].
+  induction n as [|n IH]; intros ds s Hr; [exact Hr|].
+  change (orun (S n) ds s) with
+    (let d := match ds with [] => 0 | d :: _ => d end in
+     if (d =? 0) && (ocode s =? 0) then (oemit 0 s, s)
+     else let '(o, s') := orun n (tl ds) (settle (ostep d s)) in (oemit d s ++ o, s')).
+  cbv zeta.
+  destruct ((match ds with [] => 0 | d :: _ => d end =? 0) && (ocode s =? 0)); [exact Hr|].
   specialize (IH (tl ds) (settle (ostep match ds with [] => 0 | d :: _ => d end s))
                  (settle_reach _ _ (oreach_step _ _ _ Hr))).
   destruct (orun n (tl ds) (settle (ostep match ds with [] => 0 | d :: _ => d end s))). exact IH.
@@ -196,7 +224,7 @@ Qed.
 
 Definition wph (p : phase) : nat := match p with PEnter => 7 | PRun => 1 | PExit => 1 end.
 Fixpoint whs (h : list sframe) : nat := match h with [] => O | e :: r => (wph (s_ph e) + whs r)%nat end.
-Definition omeasure (s : ost) : nat := (measure (core s) + whs (hs s))%nat.
+Definition omeasure (s : ost) : nat := (measure (core s) + whs (hs s) + length (oflow (reg s)))%nat.
 
 Lemma arrive_measure' x c : measure (arrive x c) = (measure c + 5)%nat.
 Proof. unfold measure, arrive. simpl. lia. Qed.
@@ -210,29 +238,47 @@ Proof.
   - pose proof (step_decreases true c H). lia.
 Qed.
 
-Lemma ostep0_decreases s : code (core s) <> 0 -> (omeasure (ostep 0 s) < omeasure s)%nat.
+Lemma objstep_flow r r' : objstep r = Some r' -> (length (oflow r') < length (oflow r))%nat.
 Proof.
-  intro H. unfold omeasure, ostep. cbn [Z.eqb]. destruct (hs s) as [|e r].
-  - cbn [core hs whs]. pose proof (step_decreases true (core s) H). lia.
+  unfold objstep. destruct (oflow r) as [|[| | | | |] f]; try discriminate; intro H; inversion H; subst; clear H; simpl; try lia.
+  destruct (live r); simpl; lia.
+Qed.
+
+Lemma objstep_none r : objstep r = None -> oflow r = [] \/ exists f, oflow r = OCore :: f.
+Proof.
+  unfold objstep. destruct (oflow r) as [|[| | | | |] f]; try discriminate; intros _; [left; reflexivity|right; eauto].
+Qed.
+
+Lemma ostep0_decreases s : ocode s <> 0 -> (omeasure (ostep 0 s) < omeasure s)%nat.
+Proof.
+  intro H. unfold omeasure, ostep, ocode in *. cbn [Z.eqb]. destruct (hs s) as [|e r].
+  - destruct (at_op (core s)) eqn:Hat.
+    + destruct (objstep (reg s)) as [r'|] eqn:Ho; cbn [core hs whs reg].
+      * pose proof (objstep_flow _ _ Ho). lia.
+      * pose proof (step0_le (core s)). unfold pop_flow. cbn [oflow].
+        destruct (objstep_none _ Ho) as [Hf|[f Hf]]; rewrite Hf in *; cbn [tl length].
+        -- pose proof (step_decreases true (core s) H). lia.
+        -- lia.
+    + cbn [core hs whs reg cb_reg oflow]. pose proof (step_decreases true (core s) H). lia.
   - destruct (s_ph e) eqn:Hp; cbn [core hs whs wph s_ph]; rewrite ?Hp; cbn [wph].
-    + rewrite arrive_measure'. lia.
+    + destruct (inst (reg s)) as [[|?]|]; cbn [core hs whs wph s_ph reg set_fault oflow]; [rewrite arrive_measure'|..]; lia.
     + pose proof (step_decreases true (core s) H).
-      destruct (length (stack (step true 0 (core s))) <? length (stack (core s)))%nat; cbn [whs wph s_ph]; rewrite ?Hp; cbn [wph]; lia.
-    + lia.
+      destruct (length (stack (step true 0 (core s))) <? length (stack (core s)))%nat; cbn [whs wph s_ph reg cb_reg oflow]; rewrite ?Hp; cbn [wph]; lia.
+    + cbn [reg]. lia.
 Qed.
 
 Lemma settle_le s : (omeasure (settle s) <= omeasure s)%nat.
 Proof.
   unfold settle. destruct (hs s) as [|e r] eqn:Hh; [lia|].
-  destruct (s_ph e) eqn:Hp; try lia; unfold omeasure, ostep; cbn [Z.eqb]; rewrite Hh, Hp; cbn [core hs whs wph s_ph]; rewrite ?Hp; cbn [wph].
-  - rewrite arrive_measure'. lia.
-  - lia.
+  destruct (s_ph e) eqn:Hp; try lia; unfold omeasure, ostep; cbn [Z.eqb]; rewrite Hh, Hp.
+  - destruct (inst (reg s)) as [[|?]|]; cbn [core hs whs wph s_ph reg set_fault oflow]; rewrite ?Hp; cbn [wph]; [rewrite arrive_measure'|..]; lia.
+  - cbn [core hs whs wph s_ph reg]; rewrite ?Hp; cbn [wph]. lia.
 Qed.
 
 Lemma ostep_arrival_le d s : d <> 0 -> (omeasure (ostep d s) <= omeasure s + 7)%nat.
 Proof.
   intro Hd. unfold ostep. destruct (Z.eqb_spec d 0); [contradiction|].
-  destruct (is_reg d); [|lia]. destruct (dsp s d); unfold omeasure; cbn [core hs whs wph s_ph]; lia.
+  destruct (is_sig d); [|lia]. destruct (dsp s d); unfold omeasure; cbn [core hs whs wph s_ph reg]; lia.
 Qed.
 
 Theorem ofuel_sufficient n : forall ds s,
@@ -241,14 +287,14 @@ Proof.
   induction n as [|n IH]; intros ds s H; [lia|].
   change (orun (S (S n)) ds s) with
     (let d := match ds with [] => 0 | d :: _ => d end in
-     if (d =? 0) && (code (core s) =? 0) then (oemit 0 s, s)
+     if (d =? 0) && (ocode s =? 0) then (oemit 0 s, s)
      else let '(o, s') := orun (S n) (tl ds) (settle (ostep d s)) in (oemit d s ++ o, s')).
   change (orun (S n) ds s) with
     (let d := match ds with [] => 0 | d :: _ => d end in
-     if (d =? 0) && (code (core s) =? 0) then (oemit 0 s, s)
+     if (d =? 0) && (ocode s =? 0) then (oemit 0 s, s)
      else let '(o, s') := orun n (tl ds) (settle (ostep d s)) in (oemit d s ++ o, s')).
   cbv zeta.
-  destruct ((match ds with [] => 0 | d :: _ => d end =? 0) && (code (core s) =? 0)) eqn:E; [reflexivity|].
+  destruct ((match ds with [] => 0 | d :: _ => d end =? 0) && (ocode s =? 0)) eqn:E; [reflexivity|].
   rewrite IH; [reflexivity|].
   apply andb_false_iff in E.
   destruct ds as [|d ds']; simpl in *.
@@ -260,22 +306,143 @@ Proof.
     + pose proof (ostep_arrival_le d s Hd). pose proof (settle_le (ostep d s)). lia.
 Qed.
 
+Lemma decode_fops_length l : (length (core_of (decode_fops l)) <= length l)%nat /\ (length (shape_of (decode_fops l)) <= length l)%nat.
+Proof.
+  induction l as [|x r [IH1 IH2]]; simpl; [lia|].
+  destruct ((x =? 1) || (x =? 4)); simpl; [lia|]. destruct (x =? 2); simpl; [lia|]. destruct (x =? 3); simpl; [lia|].
+  destruct (x =? 5); simpl; [lia|]. destruct (x =? 6); simpl; [lia|]. destruct (x =? 7); simpl; [lia|]. destruct (x =? 8); simpl; [lia|]. destruct (x =? 9); simpl; lia.
+Qed.
+
 (* the fuel handed out by orun_with is enough for every run of every case *)
-Theorem orun_with_fuel m mask n r dsp0 a (ds : list Z) :
+Theorem orun_with_fuel m mask n r tlim dsp0 r0 a ra (ds : list Z) :
   let c := m :: mask :: n :: r in
-  let o := decode_ops (firstn (Z.to_nat n) r) in
+  let f := decode_fops (firstn (Z.to_nat n) r) in
   let r1 := skipn (Z.to_nat n) r in
   let k := Z.to_nat (hd 0 r1) in
   let r2 := skipn k (tl r1) in
   (length ds <= length r2)%nat ->
-  (omeasure (os_main dsp0 o a) + 8 * length ds < ofuel_of c)%nat.
+  (omeasure (os_main tlim dsp0 r0 f a ra) + 8 * length ds < ofuel_of c)%nat.
 Proof.
   cbv zeta. intro Hl. unfold omeasure, measure, ofuel_of, os_main, init. simpl.
-  pose proof (decode_ops_length (firstn (Z.to_nat n) r)) as H1.
+  destruct (decode_fops_length (firstn (Z.to_nat n) r)) as [H1 H1'].
   pose proof (firstn_le_length (Z.to_nat n) r) as H2.
   pose proof (firstn_skipn (Z.to_nat n) r) as H3. apply (f_equal (@length Z)) in H3. rewrite app_length in H3.
   set (r1 := skipn (Z.to_nat n) r) in *.
   assert (H4 : (length (skipn (Z.to_nat (hd 0%Z r1)) (tl r1)) <= length r1)%nat).
   { rewrite skipn_length. destruct r1; simpl; lia. }
   lia.
+Qed.
+
+(* ------------------------------------------------------------------------------------------- *)
+(* which object is registered                                                                   *)
+(* ------------------------------------------------------------------------------------------- *)
+(* while main() of object 0 runs (any run, any flow with construct / destroy / copy-and-drop of other objects, any
+   schedule) instance_s is object 0, no other live object is object 0, and sigHandler never called processSignal
+   through anything else *)
+Theorem os_registered pre s : oreach pre s ->
+  inst (reg s) = Some O /\ fault (reg s) = false /\ Forall (fun b => b <> O) (live (reg s)).
+Proof.
+  intro Hr. destruct (oreach_inv _ _ Hr) as [_ _ _ _ _ Hi [Hl _] Hf]. auto.
+Qed.
+
+(* the main-flow operations on other objects leave the registration and the application object alone *)
+Theorem os_other_objects pre s r' : oreach pre s -> hs s = [] -> at_op (core s) = true -> objstep (reg s) = Some r' ->
+  ostep 0 s = mkO (core s) (objdsp (reg s) (dsp s)) [] (acc s) (drp s) r' /\ inst r' = Some O.
+Proof.
+  intros Hr Hh Ha Ho. split.
+  - unfold ostep. simpl. rewrite Hh, Ha, Ho. reflexivity.
+  - pose proof (oreach_inv _ _ (oreach_step _ _ 0 Hr)) as [_ _ _ _ _ Hi _ _].
+    unfold ostep in Hi. simpl in Hi. rewrite Hh, Ha, Ho in Hi. exact Hi.
+Qed.
+
+(* after the destruction of object 0 nothing is registered *)
+Theorem os_destroyed pre s : oreach pre s -> inst (reg (os_destroy s)) = None.
+Proof.
+  intro Hr. destruct (os_registered pre s Hr) as [Hi _]. unfold os_destroy. simpl. rewrite Hi. reflexivity.
+Qed.
+
+(* ------------------------------------------------------------------------------------------- *)
+(* SIGALRM: setAlarm / the time limit of main() / callbacks that re-arm the alarm                 *)
+(* ------------------------------------------------------------------------------------------- *)
+(* once setAlarm(n > 0) has been executed (by main() for a time limit, by the main flow, or by a callback) and no handler
+   activation for SIGALRM is in progress, its handler is installed - also if the environment had SIGALRM ignored *)
+Theorem os_alarm_installed pre s : oreach pre s ->
+  alarm_set (reg s) = true -> ~ In alarm_sig (busy (hs s)) -> dsp s alarm_sig = DHandler.
+Proof. intro Hr. exact (o_alarm _ _ (oreach_inv _ _ Hr)). Qed.
+
+(* before that the disposition is what the environment left, and no SIGALRM activation exists *)
+Theorem os_alarm_unset pre s : oreach pre s -> alarm_set (reg s) = false ->
+  dsp s alarm_sig = boot pre alarm_sig /\ ~ In alarm_sig (map s_sig (hs s)).
+Proof. intro Hr. exact (o_noalarm _ _ (oreach_inv _ _ Hr)). Qed.
+
+(* setAlarm(n > 0) executed by the main flow: whatever the disposition was (ignored by the environment, ignored by a
+   ScopedSig in progress), afterwards it is the handler; nothing else changes *)
+Theorem os_setalarm_step s fl : hs s = [] -> at_op (core s) = true -> oflow (reg s) = OSetAlarm :: fl ->
+  dsp (ostep 0 s) alarm_sig = DHandler /\ alarm_set (reg (ostep 0 s)) = true /\ core (ostep 0 s) = core s /\
+  hs (ostep 0 s) = [] /\ (forall y, y <> alarm_sig -> dsp (ostep 0 s) y = dsp s y).
+Proof.
+  intros Hh Ha Hf. unfold ostep. simpl. rewrite Hh, Ha. unfold objstep, objdsp. rewrite Hf. simpl.
+  repeat split. intros y Hy. unfold upd. destruct (Z.eqb_spec y alarm_sig); [contradiction|reflexivity].
+Qed.
+
+(* main() with a time limit *)
+Theorem os_main_timelimit d r f a ra :
+  dsp (os_main true d r f a ra) alarm_sig = DHandler /\ alarm_set (reg (os_main true d r f a ra)) = true.
+Proof. split; reflexivity. Qed.
+
+(* a callback that re-arms the alarm: the step that enters it installs the handler for SIGALRM - also when the callback
+   runs inside a SIGALRM activation whose ScopedSig has set SIG_IGN *)
+Theorem os_rearm_step s :
+  match hs s with [] => True | e :: _ => s_ph e = PRun end ->
+  cb_enter (core s) = true -> hd false (rearm (reg s)) = true ->
+  dsp (ostep 0 s) alarm_sig = DHandler /\ alarm_set (reg (ostep 0 s)) = true /\ core (ostep 0 s) = step true 0 (core s).
+Proof.
+  intros Hh Hc Hr.
+  assert (Hat : at_op (core s) = false).
+  { unfold at_op. unfold cb_enter in Hc. destruct (stack (core s)); [discriminate|reflexivity]. }
+  assert (Hn : rearm_now (core s) (reg s) = true) by (unfold rearm_now; rewrite Hc, Hr; reflexivity).
+  unfold ostep. simpl. destruct (hs s) as [|e r].
+  - rewrite Hat. simpl. unfold cb_dsp. rewrite Hn. simpl. repeat split; try (unfold upd; rewrite Z.eqb_refl; reflexivity).
+  - rewrite Hh. simpl. unfold cb_dsp. rewrite Hn. simpl. repeat split; try (unfold upd; rewrite Z.eqb_refl; reflexivity).
+Qed.
+
+(* whenever the handler of a signal number (registered or SIGALRM) is installed, an arrival starts sigHandler and its next
+   step is processSignal on the running object - in particular an alarm that expires after a callback re-armed it, even
+   while that callback (of an earlier SIGALRM) is still running *)
+Theorem os_handler_arrival pre s d : oreach pre s -> is_sig d = true -> dsp s d = DHandler ->
+  ostep d s = mkO (core s) (dsp s) (mkS d PEnter :: hs s) (acc s ++ [d]) (drp s) (reg s) /\
+  let s2 := ostep 0 (ostep d s) in
+  core s2 = arrive d (core s) /\ hs s2 = mkS d PRun :: hs s /\ dsp s2 d = DIgnore /\ drp s2 = drp s.
+Proof.
+  intros Hr Hsig Hd. pose proof (is_sig_nz _ Hsig) as Hnz.
+  pose proof (o_inst _ _ (oreach_inv _ _ Hr)) as Hin.
+  assert (E : ostep d s = mkO (core s) (dsp s) (mkS d PEnter :: hs s) (acc s ++ [d]) (drp s) (reg s)).
+  { unfold ostep. destruct (Z.eqb_spec d 0); [contradiction|]. rewrite Hsig, Hd. reflexivity. }
+  split; [exact E|]. rewrite E. cbv zeta. rewrite (ostep_enter _ d (hs s)) by (try reflexivity; exact Hin). simpl.
+  repeat split; auto. unfold upd. rewrite Z.eqb_refl. reflexivity.
+Qed.
+
+(* an expiring alarm reaches processSignal *)
+Theorem os_alarm_arrival pre s : oreach pre s -> alarm_set (reg s) = true -> ~ In alarm_sig (busy (hs s)) ->
+  ostep alarm_sig s = mkO (core s) (dsp s) (mkS alarm_sig PEnter :: hs s) (acc s ++ [alarm_sig]) (drp s) (reg s) /\
+  let s2 := ostep 0 (ostep alarm_sig s) in
+  core s2 = arrive alarm_sig (core s) /\ hs s2 = mkS alarm_sig PRun :: hs s /\ drp s2 = drp s.
+Proof.
+  intros Hr Ha Hb.
+  destruct (os_handler_arrival pre s alarm_sig Hr eq_refl (os_alarm_installed pre s Hr Ha Hb)) as [H1 [H2 [H3 [_ H4]]]].
+  auto.
+Qed.
+
+(* ... and with blocked_ = 0 it is in the callback after its own three steps *)
+Theorem os_alarm_handled pre s : oreach pre s -> alarm_set (reg s) = true -> ~ In alarm_sig (busy (hs s)) ->
+  blocked (core s) = 0 ->
+  let s4 := oexec [alarm_sig; 0; 0; 0] s in
+  In (length (arrs (core s)), FDelivered alarm_sig) (fates (core s4)) /\ drp s4 = drp s /\ oreach pre s4.
+Proof.
+  intros Hr Ha Hb Hbl. cbv zeta.
+  destruct (os_immediate s alarm_sig ltac:(discriminate) eq_refl (os_alarm_installed pre s Hr Ha Hb)
+              (o_inst _ _ (oreach_inv _ _ Hr)) Hbl) as [H1 [_ [_ [_ [_ [_ [H2 _]]]]]]].
+  repeat split; auto.
+  - rewrite H1. left. reflexivity.
+  - apply oreach_oexec. exact Hr.
 Qed.
